@@ -43,6 +43,7 @@ import json
 import os
 import pickle
 import shutil
+import sqlite3
 import tempfile
 import traceback
 import warnings
@@ -122,6 +123,95 @@ HIST_TABLES_T = HIST_TABLES_Q + [
 ]
 HIST_MODES_Q = ['new-db', 'drop-create']
 HIST_MODES_T = ['new-db', 'drop-create', 'new-db-open']
+
+
+# ---- table DEFINITIONS (layers tdef-1 / tdef-2): keys, constraints, storage
+# options and objects built on the table.  Structure: see models/db_spec.py.
+TDEFS1 = [
+    {'id': 'pk-col', 'pk': [0], 'pkform': 'col'},
+    {'id': 'pk-tab', 'pk': [0], 'pkform': 'tab'},
+    {'id': 'pk-norowid', 'pk': [0], 'pkform': 'col', 'norowid': True},
+    {'id': 'unique', 'uniq': [[0]]},
+    {'id': 'notnull', 'nn': [0]},
+    {'id': 'default', 'dflt': [0]},
+    {'id': 'index', 'idx': [[[0], False]]},
+    {'id': 'uindex', 'idx': [[[0], True]]},
+    {'id': 'view', 'view': True},
+]
+TDEFS2 = [
+    {'id': 'pk(a,b)', 'pk': [0, 1], 'pkform': 'tab'},
+    {'id': 'pk(b,a)', 'pk': [1, 0], 'pkform': 'tab'},
+    {'id': 'pk(a,b)-norowid', 'pk': [0, 1], 'pkform': 'tab',
+     'norowid': True},
+    {'id': 'pk(a)', 'pk': [0], 'pkform': 'col'},
+    {'id': 'pk(b)', 'pk': [1], 'pkform': 'col'},
+    {'id': 'unique(a,b)', 'uniq': [[0, 1]]},
+    {'id': 'unique(a)+unique(b)', 'uniq': [[0], [1]]},
+    {'id': 'notnull-default(b)', 'nn': [1], 'dflt': [1]},
+    {'id': 'uindex(a,b)', 'idx': [[[0, 1], True]]},
+    {'id': 'index(b,a)', 'idx': [[[1, 0], False]]},
+    {'id': 'view', 'view': True},
+]
+TDEF2_DECLS = ['INTEGER', 'REAL', 'TEXT', 'DATETIME']
+
+# ---- where the database lives and how the caller's writes are committed
+# (layer txn).  store: 'mem' = :memory:, 'file' = a database file opened by
+# path through tdda's connector.  txn:
+#   commit         every write on tdda's connection is committed (all other
+#                  layers)
+#   nocommit       the perturbing row is INSERTed on the connection that is
+#                  handed to verify_db_table and NOT committed (the connector
+#                  opens sqlite3 connections in the default, implicit-
+#                  transaction mode)
+#   base-nocommit  the same, and the table's own rows are not committed
+#                  either when discover_db_table is called
+#   autocommit     isolation_level = None on the connector's connection
+#   conn2          the perturbing row is written and committed through a
+#                  second, plain sqlite3 connection to the same file
+TXN_MODES = [('mem', 'nocommit'), ('mem', 'base-nocommit'),
+             ('mem', 'autocommit'), ('file', 'commit'), ('file', 'nocommit'),
+             ('file', 'base-nocommit'), ('file', 'conn2')]
+TXN_DECLS = ['INTEGER', 'REAL', 'TEXT', 'BOOLEAN', 'DATETIME']
+
+# values for the columns a perturbation does not aim at, tried in this order
+# after the first row's value and NULL when the table definition rejects the
+# row (key / NOT NULL): none of them is in an alphabet
+FRESH = {'int': [7], 'real': [7.5], 'string': ['zq'], 'bool': [True, False],
+         'date': ['2001-03-04 05:06:07']}
+OMIT = '\x00omit'          # marker: leave the column to its DEFAULT
+
+
+def ddl(cols, tdef):
+    """CREATE statements for table t with definition tdef."""
+    tdef = tdef or {}
+    pk = tdef.get('pk') or []
+    colform = len(pk) == 1 and tdef.get('pkform') == 'col'
+    parts = []
+    for i, (n, d) in enumerate(cols):
+        s = '"%s" %s' % (n, d)
+        if colform and pk == [i]:
+            s += ' PRIMARY KEY'
+        if i in (tdef.get('nn') or []):
+            s += ' NOT NULL'
+        if [i] in (tdef.get('uniq') or []):
+            s += ' UNIQUE'
+        if i in (tdef.get('dflt') or []):
+            s += ' DEFAULT ' + db_spec.DEFAULT_SQL[db_spec.family_of(d)]
+        parts.append(s)
+    q = lambda ic: ', '.join('"%s"' % cols[i][0] for i in ic)
+    if pk and not colform:
+        parts.append('PRIMARY KEY (%s)' % q(pk))
+    for u in tdef.get('uniq') or []:
+        if len(u) > 1:
+            parts.append('UNIQUE (%s)' % q(u))
+    out = ['CREATE TABLE t (%s)%s' % (
+        ', '.join(parts), ' WITHOUT ROWID' if tdef.get('norowid') else '')]
+    for k, (ic, uq) in enumerate(tdef.get('idx') or []):
+        out.append('CREATE %sINDEX "ix %d" ON t (%s)'
+                   % ('UNIQUE ' if uq else '', k, q(ic)))
+    if tdef.get('view'):
+        out.append('CREATE VIEW v AS SELECT * FROM t')
+    return out
 
 
 def columns(alpha, maxrows):
@@ -215,6 +305,24 @@ class C08(Check):
                                'with the same name in one process (new '
                                'database / DROP+CREATE): last step equals '
                                'the same step from a fresh state'))
+        L.append(('txn', 'where the database lives x how the caller\'s '
+                         'writes are committed: :memory: / file by path; '
+                         'perturbing row committed / left uncommitted on the '
+                         'connection handed to tdda / written through a '
+                         'second connection; table rows themselves '
+                         'uncommitted; autocommit connection - every '
+                         'observation also equals the committed in-memory '
+                         'run'))
+        L.append(('tdef-1', 'one column, table definition: PRIMARY KEY '
+                            '(column / table constraint / WITHOUT ROWID), '
+                            'UNIQUE, NOT NULL, DEFAULT, index, unique '
+                            'index, a view over the table'))
+        L.append(('tdef-2', 'two columns, table definition: composite '
+                            'PRIMARY KEY in both column orders (+ WITHOUT '
+                            'ROWID), single-column key on either column, '
+                            'composite / per-column UNIQUE, NOT NULL '
+                            'DEFAULT (perturbing INSERT omits the column), '
+                            'composite (unique) index, a view'))
         if tier == 'thorough':
             L.append(('same-name-3', 'the same with three tables A, B, A'))
             L.append(('text-extra', 'one TEXT column over the extended '
@@ -289,6 +397,53 @@ class C08(Check):
                                 yield {'hist': [['new-db', a], [mode, b]],
                                        'mode': mode, 'cols': a['cols'],
                                        'rows': a['rows'], 'rex': rex}
+        elif layer == 'txn':
+            for (store, txn) in TXN_MODES:
+                for decl in TXN_DECLS:
+                    alpha = ALPHA[decl] if thorough else ALPHA2[decl]
+                    for col in columns(alpha, 2):
+                        for rex in (False, True):
+                            yield {'cols': [['c', decl]],
+                                   'rows': [[v] for v in col], 'rex': rex,
+                                   'store': store, 'txn': txn}
+        elif layer == 'tdef-1':
+            for tdef in TDEFS1:
+                for decl in DECLS:
+                    cols = [['c', decl]]
+                    mr = 3
+                    if not thorough and decl in ('VARCHAR', 'VARCHAR(10)'):
+                        mr = 2
+                    for col in columns(ALPHA2[decl], mr):
+                        rows = [[v] for v in col]
+                        if not db_spec.table_legal(cols, rows, tdef):
+                            continue
+                        for rex in (False, True):
+                            yield {'cols': cols, 'rows': rows, 'rex': rex,
+                                   'tdef': tdef}
+        elif layer == 'tdef-2':
+            decls = DECLS if thorough else TDEF2_DECLS
+            for tdef in TDEFS2:
+                for da in decls:
+                    for db_ in decls:
+                        cols = [['c', da], ['my col', db_]]
+                        rowopts = [[a, b] for a in ALPHA2[da]
+                                   for b in ALPHA2[db_]]
+                        anystr = 'string' in (db_spec.family_of(da),
+                                              db_spec.family_of(db_))
+                        for n in (0, 1, 2):
+                            # two rows: unordered (the order of the rows is
+                            # varied by the two-col layer)
+                            for rows in itertools.\
+                                    combinations_with_replacement(rowopts, n):
+                                rows = [list(r) for r in rows]
+                                if not db_spec.table_legal(cols, rows, tdef):
+                                    continue
+                                # without a string column rex on/off is one
+                                # and the same computation
+                                for rex in ((False, True) if anystr
+                                            else (False,)):
+                                    yield {'cols': cols, 'rows': rows,
+                                           'rex': rex, 'tdef': tdef}
         elif layer == 'one-col-4':
             for decl in ('INTEGER', 'REAL', 'BOOLEAN', 'DATETIME', 'TEXT'):
                 alpha = ALPHA[decl] if decl != 'TEXT' \
@@ -488,7 +643,31 @@ class C08(Check):
     def blame(self, case, finding):
         sym = finding['sym']
         necessary = []
-        if len(case['cols']) == 2:
+        # table definition, storage and transaction mode first: without
+        # them the case is one of the plain layers' cases
+        if case.get('tdef'):
+            sub = dict(case)
+            del sub['tdef']
+            if self.reproduces(sub, sym):
+                case = sub
+            else:
+                necessary.append('tdef:' + case['tdef']['id'])
+        if case.get('txn', 'commit') != 'commit':
+            sub = dict(case)
+            sub['txn'] = 'commit'
+            if self.reproduces(sub, sym):
+                case = sub
+            else:
+                necessary.append('txn:' + case['txn'])
+        if case.get('store', 'mem') != 'mem' \
+                and case.get('txn', 'commit') != 'conn2':
+            sub = dict(case)
+            sub['store'] = 'mem'
+            if self.reproduces(sub, sym):
+                case = sub
+            else:
+                necessary.append('store:' + case['store'])
+        if len(case['cols']) == 2 and not case.get('tdef'):
             order = [0, 1]
             if finding.get('col') == 1:
                 order = [1, 0]
@@ -510,7 +689,16 @@ class C08(Check):
         if 'names-differ-only-in-case' in necessary:
             return '%s:names-differ-only-in-case' % sym[0]
         fams = [db_spec.family_of(d) for (n, d) in case['cols']]
-        sig = '%s:%s:%s' % (symstr, '+'.join(fams),
+        if case.get('tdef') and len(fams) == 2 \
+                and finding.get('col') is not None:
+            # both columns are kept (the definition spans them); the
+            # signature names the family of the column the symptom is on
+            sigfams = [fams[finding['col']], '*']
+            if finding['col'] == 1:
+                sigfams.reverse()
+        else:
+            sigfams = fams
+        sig = '%s:%s:%s' % (symstr, '+'.join(sigfams),
                             '+'.join(necessary) or 'any')
         if sym[0] not in ('unnoticed', 'perturbed-verify-raises') \
                 and not any(f.startswith('char:') or f == 'empty-string'
@@ -534,11 +722,54 @@ class C08(Check):
     def run_case(self, case):
         if 'hist' in case:
             return self.run_hist_case(case)
-        found, R, _ = self.fresh(self.child_history, [['new-db', case]],
-                                 case['rex'])
+        found, R, obs = self.fresh(self.child_history, [['new-db', case]],
+                                   case['rex'])
+        if ('build', 'illegal') in obs:
+            raise RuntimeError('harness: the model admits a table that '
+                               'SQLite rejects: %r' % (case,))
         for f in found:
             R.viol(self.blame(case, f), f['clause'], f['detail'], f['sub'])
+        if not found and (case.get('txn', 'commit') != 'commit'
+                          or case.get('store', 'mem') != 'mem'):
+            self.same_as_committed(R, case, obs)
         return R
+
+    def same_as_committed(self, R, case, obs):
+        """Differential clause of the txn layer: what tdda is shown is the
+        table as its connection sees it - where the database is stored and
+        whether the caller has committed yet are not part of the table.
+        Every observation (discovered constraints, closure verdicts, the
+        verdict of every perturbation) must equal the observation of the
+        same table in a committed in-memory database."""
+        base = {'cols': case['cols'], 'rows': case['rows'],
+                'rex': case['rex']}
+        _, R2, obs_b = self.fresh(self.child_history, [['new-db', base]],
+                                  case['rex'])
+        R.evals += R2.evals
+        R.transitions += R2.transitions
+        R.states += R2.states
+        k = 0
+        while k < len(obs) and k < len(obs_b) and obs[k] == obs_b[k]:
+            k += 1
+        if k == len(obs) == len(obs_b):
+            return
+        a = obs[k] if k < len(obs) else None
+        b = obs_b[k] if k < len(obs_b) else None
+        aspect = (a or b)[0]
+        if a is not None and b is not None and a[0] != b[0]:
+            aspect = b[0]
+        mode = '%s:%s' % (case.get('store', 'mem'),
+                          case.get('txn', 'commit'))
+        R.out('txn:%s:differs:%s' % (mode, aspect))
+        R.viol('storage-dependent:%s:%s' % (mode, aspect),
+               'same-result-as-committed-in-memory',
+               {'case': case, 'first_difference_at': k,
+                'observed': a, 'committed_in_memory': b,
+                'expected': 'discovery/verification see the table as the '
+                            'connection handed to them sees it, wherever it '
+                            'is stored and whether or not the caller has '
+                            'committed'},
+               None)
 
     def run_hist_case(self, case):
         """E3 history of same-named tables in one process, differential
@@ -581,7 +812,8 @@ class C08(Check):
 
     def closure(self, R, found, case, fields, db, phase):
         """verify on the current table; returns Verification or None."""
-        v, e = self.call(self.verify, 'sqlite', db, 't', self.path)
+        v, e = self.call(self.verify, 'sqlite', db, self.target(case),
+                         self.path)
         R.ev()
         if e is not None:
             self.obs.append((phase, 'raise', type(e).__name__))
@@ -637,23 +869,51 @@ class C08(Check):
                 cols, rows = tab['cols'], tab['rows']
                 if os.path.exists(self.path):
                     os.remove(self.path)
+                store = tab.get('store', 'mem')
+                txn = tab.get('txn', 'commit')
+                tdef = tab.get('tdef')
                 if conn is not None and mode == 'drop-create':
                     cur.execute('DROP TABLE t')
                     conn.commit()
                 else:
                     if conn is not None and mode != 'new-db-open':
                         conn.close()
-                    db = self.connect(dbtype='sqlite', db=':memory:')
+                    self.dbfile = None
+                    if store == 'file':
+                        self.dbfile = os.path.join(self.sandbox,
+                                                   'db%d.sqlite3' % k)
+                        for suffix in ('', '-journal', '-wal', '-shm'):
+                            if os.path.exists(self.dbfile + suffix):
+                                os.remove(self.dbfile + suffix)
+                    db = self.connect(dbtype='sqlite',
+                                      db=self.dbfile or ':memory:')
                     conn = db.connection
                     conns.append(conn)
+                    if store == 'file':
+                        # no fsync per commit (the files live for one case)
+                        conn.execute('PRAGMA synchronous=OFF')
+                    if txn == 'autocommit':
+                        conn.isolation_level = None
                     cur = conn.cursor()
-                cur.execute('CREATE TABLE t (%s)' % ', '.join(
-                    '"%s" %s' % (n, d) for (n, d) in cols))
+                if tdef:
+                    for stmt in ddl(cols, tdef):
+                        cur.execute(stmt)
+                else:
+                    cur.execute('CREATE TABLE t (%s)' % ', '.join(
+                        '"%s" %s' % (n, d) for (n, d) in cols))
                 ins = 'INSERT INTO t VALUES (%s)' % ', '.join(
                     '?' * len(cols))
-                for r in rows:
-                    cur.execute(ins, tuple(r))
-                conn.commit()
+                try:
+                    for r in rows:
+                        cur.execute(ins, tuple(r))
+                except sqlite3.IntegrityError:
+                    # the definition does not admit these rows (only reached
+                    # from reduced cases of blame(); the enumerator generates
+                    # legal tables only, see run_case)
+                    self.obs.append(('build', 'illegal'))
+                    return found
+                if txn != 'base-nocommit':
+                    conn.commit()
                 R.states += 1
                 if lastone:
                     case = dict(tab)
@@ -672,6 +932,10 @@ class C08(Check):
                                       self.path)
                             R.ev()
         finally:
+            c2 = getattr(self, 'conn2', None)
+            if c2 is not None:
+                conns.append(c2)
+                self.conn2 = None
             for c in conns:
                 try:
                     c.close()
@@ -679,10 +943,23 @@ class C08(Check):
                     pass
         return found
 
+    @staticmethod
+    def target(case):
+        """Name tdda is pointed at: the table, or the view over it."""
+        return 'v' if (case.get('tdef') or {}).get('view') else 't'
+
+    def table_content(self, cur, ncols):
+        cur.execute('SELECT * FROM t')
+        return sorted((tuple(r) for r in cur.fetchall()),
+                      key=lambda r: json.dumps(r, sort_keys=True))
+
     def explore(self, R, found, case, db, conn, cur, ins, upto):
         cols, rows, rex = case['cols'], case['rows'], case['rex']
+        tdef = case.get('tdef') or {}
+        txn = case.get('txn', 'commit')
+        target = self.target(case)
         # ---- transition 1: discover
-        cons, e = self.call(self.discover, 'sqlite', db, 't', inc_rex=rex)
+        cons, e = self.call(self.discover, 'sqlite', db, target, inc_rex=rex)
         R.ev()
         fields = None
         if e is None:
@@ -726,29 +1003,116 @@ class C08(Check):
         # ---- transition 2: every applicable perturbation
         stored_cols = [[db_spec.stored(cols[i][1], r[i]) for r in rows]
                        for i in range(len(cols))]
+        expected = sorted((tuple(db_spec.stored(cols[i][1], r[i])
+                                 for i in range(len(cols))) for r in rows),
+                          key=lambda r: json.dumps(r, sort_keys=True))
+        if tdef or txn != 'commit':
+            # the model reasons about the rows the driver wrote: they must
+            # be what the table holds (as seen through tdda's connection)
+            if self.table_content(cur, len(cols)) != expected:
+                if txn in ('nocommit', 'base-nocommit'):
+                    # uncommitted rows gone after discover / verify: whether
+                    # tdda may end the caller's transaction is not in the
+                    # statement; the model's premises no longer hold
+                    self.obs.append(('table', 'changed'))
+                    R.unspec += 1
+                    R.out('table-changed-by-tdda')
+                    return
+                raise RuntimeError('harness: table content is not what was '
+                                   'written: %r' % (case,))
         benign = list(rows[0]) if rows else [None] * len(cols)
         nrows = len(rows)
         n_must = n_unspec = 0
         rich = False
+        fams = [db_spec.family_of(d) for (n, d) in cols]
+        # who writes the perturbing row, and is it committed
+        wconn, wcur = conn, cur
+        if txn == 'conn2':
+            wconn = self.conn2 = sqlite3.connect(self.dbfile)
+            wconn.execute('PRAGMA synchronous=OFF')
+            wcur = wconn.cursor()
+        commits = txn not in ('nocommit', 'base-nocommit')
+        pkcols = tdef.get('pk') if tdef.get('norowid') else None
+        dflt = tdef.get('dflt') or []
         for i, (name, decl) in enumerate(cols):
-            fam = db_spec.family_of(decl)
+            fam = fams[i]
             fc = fields.get(name) or {}
             if any(k != 'type' for k in fc):
                 rich = True
             for p in db_spec.perturbations(fam, fc, stored_cols[i],
                                            self.tier):
-                row = list(benign)
-                row[i] = p.value
-                cur.execute(ins, tuple(row))
-                rid = cur.lastrowid
-                conn.commit()
-                v2, e2 = self.call(self.verify, 'sqlite', db, 't', self.path)
+                # the other columns: first row's value; if the table
+                # definition rejects the row, NULL, then values outside the
+                # alphabets; a DEFAULT column is left out of the INSERT
+                alts = []
+                for j in range(len(cols)):
+                    if j == i:
+                        alts.append([p.value])
+                        continue
+                    a = [OMIT] if j in dflt else []
+                    for x in [benign[j], None] + FRESH[fams[j]]:
+                        if not any(x is y or (x == y and type(x) == type(y))
+                                   for y in a):
+                            a.append(x)
+                    alts.append(a)
+                row = where = None
+                for cand in itertools.product(*alts):
+                    used = [j for j, x in enumerate(cand) if x is not OMIT]
+                    sql = ins if len(used) == len(cols) else (
+                        'INSERT INTO t (%s) VALUES (%s)' % (
+                            ', '.join('"%s"' % cols[j][0] for j in used),
+                            ', '.join('?' * len(used))))
+                    try:
+                        wcur.execute(sql, tuple(cand[j] for j in used))
+                    except sqlite3.IntegrityError:
+                        if commits and wconn.in_transaction:
+                            wconn.rollback()
+                        continue
+                    row = ['<default>' if x is OMIT else x for x in cand]
+                    if pkcols:
+                        where = (' AND '.join('"%s" IS ?' % cols[j][0]
+                                              for j in pkcols),
+                                 tuple(cand[j] for j in pkcols))
+                    else:
+                        where = ('rowid = ?', (wcur.lastrowid,))
+                    break
+                if row is None:
+                    # SQLite does not admit this row: not a perturbation of
+                    # this table
+                    R.out('pert:%s:%s:rejected-by-definition'
+                          % (p.target, p.pid))
+                    continue
+                if tdef:
+                    # ... and it must have been stored as written (a NULL
+                    # written to a rowid alias becomes a fresh integer)
+                    wcur.execute('SELECT "%s" FROM t WHERE %s'
+                                 % (name, where[0]), where[1])
+                    got = wcur.fetchall()
+                    want = db_spec.stored(decl, p.value)
+                    if len(got) != 1 or got[0][0] != want \
+                            or type(got[0][0]) != type(want):
+                        wcur.execute('DELETE FROM t WHERE %s' % where[0],
+                                     where[1])
+                        wconn.commit()
+                        R.out('pert:%s:%s:transformed-by-definition'
+                              % (p.target, p.pid))
+                        continue
+                if commits:
+                    wconn.commit()
+                v2, e2 = self.call(self.verify, 'sqlite', db, target,
+                                   self.path)
                 R.ev()
                 R.states += 1
-                cur.execute('DELETE FROM t WHERE rowid = ?', (rid,))
-                conn.commit()
+                wcur.execute('DELETE FROM t WHERE %s' % where[0], where[1])
+                if commits:
+                    wconn.commit()
                 cur.execute('SELECT COUNT(*) FROM t')
                 if cur.fetchall()[0][0] != nrows:
+                    if not commits:
+                        self.obs.append(('table', 'changed'))
+                        R.unspec += 1
+                        R.out('table-changed-by-tdda')
+                        return
                     raise RuntimeError('harness: perturbing row not removed')
                 sub = {'column': name, 'perturbation': p.as_dict()}
                 if e2 is not None:
